@@ -435,7 +435,7 @@ func (ex *Exec) visitInstr(fr *frame, instr ssa.Instruction) bool {
 		if p == nil {
 			ex.oblige("nil", "store through nil pointer", fr, instr.Pos(), b.False)
 		}
-		ex.checkWrite(fr, instr.Pos(), p)
+		ex.checkWriteVal(fr, instr.Pos(), p, fr.get(instr.Val))
 		*p = copyVal(fr.get(instr.Val))
 
 	case *ssa.If:
@@ -658,6 +658,57 @@ func (ex *Exec) implements(t types.Type, it *types.Interface) bool {
 		return ft.implements(it)
 	}
 	return types.Implements(t, it)
+}
+
+// checkWriteVal: as checkWrite, but a store of the value the cell already holds is not a mutation
+// (it is unobservable, and an in-place filter that keeps everything does exactly that).
+func (ex *Exec) checkWriteVal(fr *frame, pos token.Pos, p *value, nv value) {
+	why, ok := ex.protected[p]
+	if !ok || ex.inInit > 0 {
+		return
+	}
+	same := ex.b.False
+	func() {
+		defer func() {
+			if r := recover(); r != nil {
+				if _, isPE := r.(pathEnd); !isPE {
+					panic(r)
+				}
+			}
+		}()
+		same = ex.sameStored(*p, nv)
+	}()
+	ex.oblige("frame", "write to protected "+why, fr, pos, same)
+}
+
+// sameStored: is storing nv over old unobservable?
+func (ex *Exec) sameStored(old, nv value) *smt.Term {
+	switch o := old.(type) {
+	case *smt.Term:
+		if n, ok := nv.(*smt.Term); ok && n.Sort == o.Sort && o.Sort != smt.SFP {
+			return ex.b.Eq(o, n)
+		}
+	case *Str:
+		if n, ok := nv.(*Str); ok && !o.opaque && !n.opaque {
+			return ex.strEq(o, n)
+		}
+	case *value:
+		n, ok := nv.(*value)
+		return ex.b.Bool(ok && n == o)
+	case iface:
+		n, ok := nv.(iface)
+		if !ok {
+			return ex.b.False
+		}
+		if o.t == nil || n.t == nil {
+			return ex.b.Bool(o.t == nil && n.t == nil)
+		}
+		if !typesIdentical(o.t, n.t) {
+			return ex.b.False
+		}
+		return ex.sameStored(o.v, n.v)
+	}
+	return ex.b.False
 }
 
 // checkWrite poses the frame obligation for a store into a protected cell.
